@@ -413,12 +413,28 @@ def _docs_chunk(recs, fills, seed):
     n = 0
     viol = []
     notcomp = 0
+    reuse = [None, None]
     for rec in recs:
         for f in range(fills):
             body = fill_doc(rec, rnd)
             src = ('<?xml version="1.0" encoding="utf-8"?>\n' + body) if rec["xml"] else body
             want = src if rec["xml"] else norm(src)
             opts = rnd.choice(OPTSETS)
+            # one template object that is given document after document (write()): each is reproduced like a first one
+            # (XML and HTML documents alternate at random, so the mode is decided anew for each)
+            n += 1
+            try:
+                if reuse[0] is None:
+                    reuse[0] = PageTemplate(src)
+                else:
+                    reuse[0].write(src)
+                got2 = reuse[0]()
+                if got2 != want:
+                    viol.append(("a template object given a new document with write() does not reproduce it (xml=%s, the document before: "
+                                 "xml=%s)\n  source: %r\n  output: %r" % (rec["xml"], reuse[1], src, got2), dict(kind="verbatim-write", source=src, output=got2)))
+                reuse[1] = rec["xml"]
+            except Exception:   # noqa
+                reuse[0] = None
             for as_bytes in (False, True):
                 n += 1
                 try:
